@@ -93,6 +93,57 @@ theorem extend_keeps_function (b : Bdd α) (new : List α) (hb : b.WF) (hnew : S
   extend_den b new hb hnew hsub
 end
 
+section
+variable [DecidableEq α] [Ord α] [Std.TransOrd α] [Std.LawfulEqOrd α]
+/-! ### operand order does not matter for tables (same inputs, same values) -/
+
+theorem union_comm (xs ys : List α) : unionSorted xs ys = unionSorted ys xs :=
+  strictSorted_ext _ _ (strictSorted_sortDedup _) (strictSorted_sortDedup _)
+    (fun x => by rw [mem_unionSorted, mem_unionSorted]; exact Or.comm)
+
+theorem table_and_comm (a b : Table α) (ha : a.WF) (hb : b.WF) :
+    (Table.mkAnd a b).inputs = (Table.mkAnd b a).inputs ∧
+    ∀ ρ, (Table.mkAnd a b).den ρ = (Table.mkAnd b a).den ρ := by
+  obtain ⟨_, hi, hd⟩ := table_and a b ha hb
+  obtain ⟨_, hi', hd'⟩ := table_and b a hb ha
+  exact ⟨by rw [hi, hi', union_comm], fun ρ => by rw [hd, hd', Bool.and_comm]⟩
+theorem table_or_comm (a b : Table α) (ha : a.WF) (hb : b.WF) :
+    (Table.mkOr a b).inputs = (Table.mkOr b a).inputs ∧
+    ∀ ρ, (Table.mkOr a b).den ρ = (Table.mkOr b a).den ρ := by
+  obtain ⟨_, hi, hd⟩ := table_or a b ha hb
+  obtain ⟨_, hi', hd'⟩ := table_or b a hb ha
+  exact ⟨by rw [hi, hi', union_comm], fun ρ => by rw [hd, hd', Bool.or_comm]⟩
+theorem table_xor_comm (a b : Table α) (ha : a.WF) (hb : b.WF) :
+    (Table.mkXor a b).inputs = (Table.mkXor b a).inputs ∧
+    ∀ ρ, (Table.mkXor a b).den ρ = (Table.mkXor b a).den ρ := by
+  obtain ⟨_, hi, hd⟩ := table_xor a b ha hb
+  obtain ⟨_, hi', hd'⟩ := table_xor b a hb ha
+  exact ⟨by rw [hi, hi', union_comm], fun ρ => by rw [hd, hd']; cases Table.den ρ a <;> cases Table.den ρ b <;> rfl⟩
+/-! ### … nor for decision diagrams -/
+
+theorem bdd_and_comm (a b : Bdd α) (ha : a.WF) (hb : b.WF) :
+    ∃ c c', Bdd.mkAnd a b = .ok c ∧ Bdd.mkAnd b a = .ok c' ∧ c.inputs = c'.inputs ∧
+      ∀ ρ, c.den ρ = c'.den ρ := by
+  obtain ⟨c, hc, hw, hi, hd⟩ := bdd_and a b ha hb
+  obtain ⟨c', hc', hw', hi', hd'⟩ := bdd_and b a hb ha
+  exact ⟨c, c', hc, hc', strictSorted_ext _ _ hw.1 hw'.1 (fun x => by rw [hi, hi']; exact Or.comm),
+    fun ρ => by rw [hd, hd', Bool.and_comm]⟩
+theorem bdd_or_comm (a b : Bdd α) (ha : a.WF) (hb : b.WF) :
+    ∃ c c', Bdd.mkOr a b = .ok c ∧ Bdd.mkOr b a = .ok c' ∧ c.inputs = c'.inputs ∧
+      ∀ ρ, c.den ρ = c'.den ρ := by
+  obtain ⟨c, hc, hw, hi, hd⟩ := bdd_or a b ha hb
+  obtain ⟨c', hc', hw', hi', hd'⟩ := bdd_or b a hb ha
+  exact ⟨c, c', hc, hc', strictSorted_ext _ _ hw.1 hw'.1 (fun x => by rw [hi, hi']; exact Or.comm),
+    fun ρ => by rw [hd, hd', Bool.or_comm]⟩
+theorem bdd_xor_comm (a b : Bdd α) (ha : a.WF) (hb : b.WF) :
+    ∃ c c', Bdd.mkXor a b = .ok c ∧ Bdd.mkXor b a = .ok c' ∧ c.inputs = c'.inputs ∧
+      ∀ ρ, c.den ρ = c'.den ρ := by
+  obtain ⟨c, hc, hw, hi, hd⟩ := bdd_xor a b ha hb
+  obtain ⟨c', hc', hw', hi', hd'⟩ := bdd_xor b a hb ha
+  exact ⟨c, c', hc, hc', strictSorted_ext _ _ hw.1 hw'.1 (fun x => by rw [hi, hi']; exact Or.comm),
+    fun ρ => by rw [hd, hd']; cases Bdd.den ρ a <;> cases Bdd.den ρ b <;> rfl⟩
+end
+
 /-- non-vacuity: operands with partly overlapping variables -/
 example : (Table.mkXor (⟨[1, 2], [false, true, true, false]⟩ : Table Nat) ⟨[2, 3], [false, false, false, true]⟩).inputs = [1, 2, 3] := by decide
 
